@@ -143,3 +143,77 @@ Section CFB.
     - unfold seal_bytes. apply Forall_app; split; [assumption | now apply cfb_enc_bytes].
   Qed.
 End CFB.
+
+(* ---------- decryption under another block function ---------- *)
+Lemma lxor_cancel_l x y y' : Nat.lxor x y = Nat.lxor x y' -> y = y'.
+Proof.
+  intros H. rewrite <- (Nat.lxor_0_l y), <- (Nat.lxor_0_l y'), <- (Nat.lxor_nilpotent x).
+  rewrite !Nat.lxor_assoc. now rewrite H.
+Qed.
+
+Lemma xor_cancel a : forall k k',
+  List.length a <= List.length k -> List.length a <= List.length k' ->
+  (xor_bytes a k = xor_bytes a k' <-> firstn (List.length a) k = firstn (List.length a) k').
+Proof.
+  induction a as [| x a IH]; intros k k' Hk Hk'; cbn [List.length firstn xor_bytes]; [tauto |].
+  destruct k as [| y k]; [cbn in Hk; lia |]. destruct k' as [| y' k']; [cbn in Hk'; lia |].
+  cbn in Hk, Hk'. cbn [xor_bytes firstn]. split; intros H; inversion H as [[H1 H2]].
+  - apply lxor_cancel_l in H1. subst y'. f_equal. apply IH; [lia | lia | exact H2].
+  - f_equal. apply IH; [lia | lia | exact H2].
+Qed.
+
+Lemma app_inj_length {A} (a a' b b' : list A) :
+  List.length a = List.length a' -> a ++ b = a' ++ b' -> a = a' /\ b = b'.
+Proof.
+  revert a'. induction a as [| x a IH]; intros [| x' a'] Hl H; cbn in *; try discriminate.
+  - now split.
+  - inversion H; subst. destruct (IH a') as [-> ->]; [congruence | assumption |]. now split.
+Qed.
+
+Section OtherKey.
+  Variables E E' : list nat -> list nat.
+  Hypothesis E_len : forall b, List.length (E b) = 16.
+  Hypothesis E'_len : forall b, List.length (E' b) = 16.
+
+  Lemma cfb_dec_agree fuel : forall prev c,
+    cfb_dec E' fuel prev c = cfb_dec E fuel prev c <-> streams_agree E E' fuel prev c.
+  Proof.
+    induction fuel as [| f IH]; intros prev c; [cbn; tauto |].
+    destruct c as [| x c]; [cbn; tauto |].
+    set (cc := x :: c). assert (Hne : cc <> []) by discriminate.
+    rewrite !cfb_dec_step by exact Hne.
+    change (streams_agree E E' (S f) prev cc) with
+      (firstn (List.length (firstn 16 cc)) (E prev) = firstn (List.length (firstn 16 cc)) (E' prev)
+       /\ streams_agree E E' f (firstn 16 cc) (skipn 16 cc)).
+    assert (Hcb : List.length (firstn 16 cc) <= 16) by (rewrite firstn_length; lia).
+    rewrite <- IH. rewrite <- (xor_cancel (firstn 16 cc) (E prev) (E' prev)) by (rewrite ?E_len, ?E'_len; exact Hcb).
+    split.
+    - intros H. apply app_inj_length in H as [H1 H2].
+      + split; [symmetry; exact H1 | exact H2].
+      + rewrite !xor_bytes_length, E_len, E'_len. reflexivity.
+    - intros [H1 H2]. rewrite H1, H2. reflexivity.
+  Qed.
+
+  Hypothesis E_bytes : forall b, all_bytesP (E b).
+
+  (* open under E' returns the plaintext exactly when the two key streams agree
+     on the bytes that were used *)
+  Theorem open_other_key iv p :
+    List.length iv = 16 -> all_bytesP iv -> all_bytesP p ->
+    (open E' (seal E iv p) = Some p <->
+     streams_agree E E' (List.length p) iv (cfb_enc E (List.length p) iv p)).
+  Proof.
+    intros Hiv Biv Bp. unfold open, seal.
+    rewrite b64_roundtrip
+      by (unfold seal_bytes; apply Forall_app; split; [assumption | now apply cfb_enc_bytes]).
+    unfold open_bytes, seal_bytes. rewrite app_length, Hiv.
+    destruct (16 + _ <? 16) eqn:Hlt; [apply Nat.ltb_lt in Hlt; lia |].
+    rewrite firstn_app_exact, skipn_app_exact by assumption.
+    set (c := cfb_enc E (List.length p) iv p).
+    assert (Lc : List.length c = List.length p) by (unfold c; apply cfb_enc_length; [exact E_len | lia]).
+    rewrite Lc. rewrite <- cfb_dec_agree.
+    assert (Hp : cfb_dec E (List.length p) iv c = p)
+      by (unfold c; apply cfb_roundtrip; [exact E_len | lia | lia]).
+    rewrite Hp. split; [intros H; injection H as H1; exact H1 | intros H; rewrite H; reflexivity].
+  Qed.
+End OtherKey.
